@@ -854,3 +854,135 @@ pub fn c30() -> SimCheck {
         },
     }
 }
+
+// ---------------------------------------------------------------------------------------------- C33
+pub fn c33() -> SimCheck {
+    SimCheck {
+        id: "C33",
+        bias: Bias {
+            snapshots: true,
+            probe_recovery: true,
+            w_put: 20,
+            w_burst: 18,
+            w_cas: 6,
+            w_del: 3,
+            w_read: 0,
+            w_isolate: 6,
+            w_partition: 8,
+            w_crash: 6,
+            w_stop: 3,
+            w_restart: 9,
+            w_restart_cluster: 2,
+            w_lag: 4,
+            steps: (10, 45),
+            tail_ms: (300, 800),
+            ..write_bias()
+        },
+        quick: 900,
+        thorough: 25_000,
+        rule: "scenario = write-heavy load (bursts) on 3/5 real nodes with snapshots enabled (threshold 1..30 entries, retained 1..3), lagging / cut-off / crashed / stopped followers that fall below the leader's purge boundary, leader crashes and restarts, full-cluster restarts, apply lag; then faults stop; oracle (a) at every step on every live node: purge boundary <= highest committed index and <= last_included of the snapshot that node holds; (b) committed entries are not lost by compaction (C05 checkpoints); (c) bounded liveness: within 100 x election_timeout_max after the heal a probe write is acknowledged and every live voter has applied it — by log or by snapshot; (d) every node's final state equals the reference model folded over the committed prefix up to its applied index (snapshot installs included); non-trivial = some log was purged and afterwards a node was restarted or installed a snapshot; distinct by (leader map, faults, purge/installs shape)",
+        assumptions: vec![
+            "the simulated state machine implements snapshots correctly (as-of-index images, metadata persisted with the image) and the simulated log store persists the purge boundary: engine-specific snapshot/purge persistence of the File and RocksDB engines is covered by C15/C16/C18/C20, not here",
+            "crashes are real: process crash (page cache survives) or power loss (only flushed log data survives)",
+        ],
+        required: vec!["log_purged"],
+        judge: |_sc, res, out| {
+            c33_judge(res, out);
+            // root-cause classifier for whatever was found: did a node install a snapshot that ends below
+            // what it had already applied? (the consequences show up as purge-boundary, gap or state violations)
+            if let Some(v) = out.violation.as_mut() {
+                if let Some(desc) = c33_stale_install(res) {
+                    v.detail = format!("{desc}; consequence: {}: {}", v.signature, v.detail);
+                    v.signature = "C33:stale-snapshot-install-rolls-back-applied-state".into();
+                } else if let Some(desc) = c33_applied_below_install(res) {
+                    v.detail = format!("{desc}; consequence: {}: {}", v.signature, v.detail);
+                    v.signature = "C33:entries-below-installed-snapshot-applied-on-top-of-it".into();
+                }
+            }
+        },
+    }
+}
+
+/// An entry at or below the last_included index of a snapshot the node installed earlier in the same
+/// incarnation was applied on top of that snapshot (the chunk had been dispatched before the install).
+fn c33_applied_below_install(res: &RunResult) -> Option<String> {
+    for a in &res.applies.applied {
+        if a.index <= a.prev_applied {
+            if let Some(ins) = res.applies.installs.iter().find(|i| i.node == a.node && i.incarnation == a.incarnation && i.at_ms <= a.at_ms && i.last_included >= a.index) {
+                return Some(format!(
+                    "node {} (incarnation {}) installed a snapshot ending at {} (t={}ms) and afterwards applied index {} on top of it (state machine last_applied before the chunk = {}, t={}ms)",
+                    a.node, a.incarnation, ins.last_included, ins.at_ms, a.index, a.prev_applied, a.at_ms
+                ));
+            }
+        }
+    }
+    None
+}
+
+fn c33_stale_install(res: &RunResult) -> Option<String> {
+    for ins in &res.applies.installs {
+        let started_at = res
+            .history
+            .iter()
+            .filter_map(|(_, e)| if let Ev::NodeStart { node, incarnation, last_applied, .. } = e { (*node == ins.node && *incarnation == ins.incarnation).then_some(*last_applied) } else { None })
+            .next()
+            .unwrap_or(0);
+        let applied_before = res
+            .applies
+            .applied
+            .iter()
+            .filter(|a| a.node == ins.node && a.incarnation == ins.incarnation && a.at_ms < ins.at_ms)
+            .map(|a| a.index)
+            .max()
+            .unwrap_or(0)
+            .max(started_at);
+        if ins.last_included < applied_before {
+            return Some(format!("node {} (incarnation {}) had applied up to {applied_before} and then installed a snapshot ending at {} (t={}ms)", ins.node, ins.incarnation, ins.last_included, ins.at_ms));
+        }
+    }
+    None
+}
+
+fn c33_judge(res: &RunResult, out: &mut Outcome) {
+    let purged = res.labels.contains("log_purged");
+    let installs = res.applies.installs.len();
+    if installs > 0 {
+        out.add_label("snapshot_installed_on_follower");
+    }
+    let restarted = res.labels.contains("restart") || res.labels.contains("restart_cluster");
+    out.nontrivial = purged && (installs > 0 || restarted);
+    let shape: Vec<(u32, u64)> = res.applies.installs.iter().map(|i| (i.node, i.last_included)).collect();
+    let firsts: Vec<(u32, u64)> = res.final_nodes.iter().map(|n| (n.id, n.first)).collect();
+    out.fingerprint = fp(&(leader_seq_fp(res), shape, firsts));
+    checkpoint_violation(res, "C33", out);
+    if out.violation.is_some() {
+        return;
+    }
+    if let Some((_, sig, detail)) = res.checkpoint_violations.iter().find(|(p, _, _)| p == "C05") {
+        out.violate(format!("C33:committed-entry-lost-with-compaction({sig})"), detail.clone());
+        return;
+    }
+    if res.recovery_probed {
+        match res.recovery_write_ok_after_ms {
+            None => {
+                out.violate(
+                    "C33:no-successful-write-within-bound-after-heal",
+                    format!("no probe write was acknowledged within {} ms (100 x election_timeout_max) after the faults stopped at t={}ms", res.recovery_bound_ms, res.heal_ms),
+                );
+                return;
+            }
+            Some(_) => {
+                if !res.recovery_unapplied.is_empty() {
+                    out.violate(
+                        "C33:lagging-voter-not-caught-up-across-purge-boundary",
+                        format!("after recovery these live voters (node, applied, needed) lag behind: {:?}; final (node, first, last) = {:?}", res.recovery_unapplied, res.final_nodes.iter().map(|n| (n.id, n.first, n.last)).collect::<Vec<_>>()),
+                    );
+                    return;
+                }
+            }
+        }
+    }
+    if let Some((s, d)) = monitors::check_c06(res) {
+        out.violate(format!("C33:state-after-compaction-differs({s})"), d);
+    }
+}
